@@ -249,6 +249,9 @@ fn _qdldl_new<T: FloatT>(
     //user would need to pass (0..n).collect() explicitly
     let (perm, iperm);
     if let Some(_perm) = opts.perm {
+        if _perm.len() != n {
+            return Err(QDLDLError::InvalidPermutation);
+        }
         iperm = _invperm(&_perm)?;
         perm = _perm;
     } else {
@@ -778,10 +781,12 @@ fn _solve<T: FloatT>(Lp: &[usize], Li: &[usize], Lx: &[T], Dinv: &[T], b: &mut [
 // Construct an inverse permutation from a permutation
 fn _invperm(p: &[usize]) -> Result<Vec<usize>, QDLDLError> {
     let mut b = vec![0; p.len()];
+    let mut seen = vec![false; p.len()];
 
     for (i, j) in p.iter().enumerate() {
-        if *j < p.len() && b[*j] == 0 {
+        if *j < p.len() && !seen[*j] {
             b[*j] = i;
+            seen[*j] = true;
         } else {
             return Err(QDLDLError::InvalidPermutation);
         }
